@@ -38,6 +38,8 @@ def transformed(rng, ds, kind):
         d["X"] = reidx(ds["X"], idx); d["y"] = reidx(ds["y"], idx)
     elif kind == "affine":
         a = rng.choice([2.0, 0.5, 1024.0, 4.0]); b = float(rng.choice([0, 3, -7, 64]))
+        if ds.get("zero_inflated") and b == 0:
+            b = 3.0                                   # a pure rescaling leaves 0 where it is
         X = ds["X"].copy(); Xd = None if ds["X_dev"] is None else ds["X_dev"].copy()
         for f in ds["quantitative"]:
             X[f] = X[f].astype(float) * a + b
@@ -87,6 +89,8 @@ def check_case(rng, r, stats):
     base, err0 = fit_sig(ds, cfg)
     sig0 = partition_sig(base, ds["X"]) if base is not None else None
     kinds = rng.sample(KINDS, 3)
+    if r["meta"].get("zero_inflated"):
+        kinds = ["affine"] + [k for k in kinds if k != "affine"][:2]
     if ds.get("no_affine"):
         kinds = [k for k in kinds if k != "affine"] or ["permute"]
     if ds["kinds"] == ["cat-tied"]:
@@ -148,7 +152,20 @@ def worker(args):
             t = gen_tied(rng)
             if t is not None:
                 r = t; stats["tied_cases"] += 1
-        if rng.random() < 0.3:
+        if rng.random() < 0.2:
+            # a zero-inflated quantitative feature (0 the only over-represented value) under a shift / rescaling: 0 must be
+            # treated as any other over-represented value
+            tgt = rng.choice(["binary", "continuous"])
+            for _ in range(12):
+                d0 = fitgen.gen_dataset(rng, target=tgt, kinds=["disc"])
+                col = d0["X"][d0["quantitative"][0]]
+                if d0["ok_target"] and not d0.get("no_affine") and len(col) and float((col == 0).mean()) > 0.4:
+                    d0["zero_inflated"] = True
+                    r = {"ds": d0, "meta": {"what": "carver", "target": tgt, "cfg": fitgen.gen_config(rng, tgt), "kinds": d0["kinds"],
+                                            "n": len(col), "dev": d0["X_dev"] is not None, "zero_inflated": True}}
+                    stats["zero_inflated"] = stats.get("zero_inflated", 0) + 1
+                    break
+        elif rng.random() < 0.3:
             r["ds"] = fitgen.gen_dataset(rng, target="multiclass")
             r["meta"]["target"] = "multiclass"
             r["meta"]["cfg"] = fitgen.gen_config(rng, "multiclass")
